@@ -232,6 +232,18 @@ func Values(level int) []*rdbgen.Value {
 		return []rdbgen.ZE{{Enc: "s14", S: rep(ch, n)}, {Enc: "s6", S: []byte{ch}}}
 	}
 	add(rdbgen.QuicklistVal([][]rdbgen.ZE{longZE('x', 200), longZE('y', 180), longZE('z', 100)}, true), "3-lzf-nodes")
+	// containers of 16 KiB and more: their length is read in the 32-bit form, which leaves
+	// non-zero bytes in whatever scratch space the reader keeps; small positive integers of every
+	// width follow inside the same blob and in the next node (seed C02q: stale top byte of a
+	// 24-bit integer after a large node)
+	posInts := []rdbgen.ZE{
+		{Enc: "i16", I: 300}, {Enc: "i24", I: 70000}, {Enc: "i24", I: 32768}, {Enc: "i32", I: 100000000},
+		{Enc: "i64", I: 5000000000}, {Enc: "i8", I: 100}, {Enc: "i4", I: 7}, {Enc: "i24", I: -70000},
+	}
+	bigNode := append([]rdbgen.ZE{{Enc: "s32", S: pattern(17000)}}, posInts...)
+	add(rdbgen.QuicklistVal([][]rdbgen.ZE{bigNode, append([]rdbgen.ZE{{Enc: "s6", S: []byte("n2")}}, posInts...)}, false), "16k-node-then-ints")
+	add(rdbgen.ListZiplistVal(bigNode, false, false), "16k-ints")
+	add(rdbgen.HashZiplistVal(append([]rdbgen.ZE{{Enc: "s6", S: []byte("f0")}}, bigNode...)[:8], false, false), "16k-ints")
 	// streams
 	for packs := 0; packs <= 2; packs++ {
 		var pk [][2][]byte
